@@ -168,6 +168,28 @@ INIT_TASKS = [FunctionTask(init_contract(mn), module_env={"TimeSeries": _TS_MOD}
 
 TASKS = [FunctionTask(ORIENT, clauses=["exact rotation in the clockwise-from-north convention, vertical untouched"])] + INIT_TASKS + lemmas()
 
+# ---------------------------------------------------------------- HvsrAzimuthal._check_input: azimuths outside [0, 180] are refused
+from pyvc.core import ClsV as _ClsV
+from pyvc.objects import SObj as _SObj
+_az = z3.Real("azimuth")
+
+
+def _ci_inputs(kind):
+    def mk(ex, st):
+        st.env["hvsr"] = _SObj("HvsrTraditional" if kind == "traditional" else "HvsrCurve", z3.Int("hvsr_id"), "param:hvsr")
+        st.env["azimuth"] = _az
+        return []
+    return mk
+
+
+for _kind in ("traditional", "other"):
+    _c = Contract(qual="hvsrpy.hvsr_azimuthal.HvsrAzimuthal._check_input", params=["hvsr", "azimuth"], make_inputs=_ci_inputs(_kind), modifies=[],
+                  raises=({"ValueError": "azimuth < 0 or azimuth > 180"} if _kind == "traditional" else {"TypeError": "True"}),
+                  ensures=(["result[0] is hvsr", "result[1] == azimuth", "0 <= result[1] and result[1] <= 180"] if _kind == "traditional" else []),
+                  notes="an azimuth is accepted iff it lies in [0, 180]; anything but an HvsrTraditional is a TypeError")
+    TASKS.append(FunctionTask(_c, module_env={"HvsrTraditional": _ClsV("HvsrTraditional")}, label=f"hvsrpy.hvsr_azimuthal.HvsrAzimuthal._check_input[{_kind}]",
+                              clauses=["azimuths are accepted exactly on [0, 180]"]))
+
 META = dict(
     level="other",
     explanation="proved: orient_sensor_to is the stated rotation for every recording and angle (pointwise postcondition, frame, stored orientation); "
